@@ -11,6 +11,12 @@ CLAIMS = {
                   "positive, CR LF join, arrival order) about a Gallina model of reply/replies; model tied to the code by an "
                   "exhaustive sweep of all 65536 codes and enumerated/random reply sequences.",
              design="4/C15", note=LEAF_NOTE, technique="Coq proof (induction over appends) + exhaustive/differential correspondence with the C++ classes"),
+ "C05": dict(text="Theorems for every byte string, every chunking of the source (internal buffer size and short reads), every "
+                  "sequence of caller buffer sizes and every partition into write calls: upload output = to_crlf, download sink = "
+                  "from_crlf with one final flush, LF-only text round-trips; model tied to the real converter classes by "
+                  "exhaustive enumeration of strings over {CR,LF,x} with all boundary alignments.",
+             design="4/C05", note=LEAF_NOTE + " Sources are assumed to have a sticky end-of-file (istream_adapter guarantees it). The end-to-end selection of the converter by transfer type is part of the protocol checks.",
+             technique="Coq proof (buffered converter refines a per-byte automaton = substitution) + exhaustive differential correspondence"),
  "C06": dict(text="Theorems for all reply texts and all 65536 ports: soundness, completeness and rejection for the 227 and 229 "
                   "parsers (numbers taken are the numbers written, never wrapped), PORT/227 round trip for every IPv4 address "
                   "and port, EPRT syntax and port round trip, PORT refused for non-IPv4; model tied to the private static helpers "
